@@ -414,3 +414,13 @@ impl Fp12 {
         t
     }
 }
+
+#[cfg(gm_rs_verif)]
+impl Fp12 {
+    pub fn verif_frobenius(&self) -> Fp12 {
+        self.fp12_frobenius()
+    }
+    pub fn verif_frobenius3(&self) -> Fp12 {
+        self.fp12_frobenius3()
+    }
+}
